@@ -400,6 +400,17 @@ func startPipeline(r *obsRun, kind, name string, n []int, f []float64, env [][]f
 			r.drain(floatRecv(w), pc, 0, 1)
 			break
 		}
+		if name == "ema" && len(env) == 2 && len(env[1]) == 2 {
+			// trend.Ema as the library builds it (NetM.recurNet): Head + Sma give the seed, then the goroutine reads c itself.
+			// Smoothing = mul*(p+1) makes the multiplier the integer mul, so that the values are exact
+			per, mul := int(env[1][0]), env[1][1]
+			c := feed(r, env[0], capacity, pc, 0, 1)
+			e := trend.NewEmaWithPeriod[float64](per)
+			e.Smoothing = mul * float64(per+1)
+			w := e.Compute(c)
+			r.drain(floatRecv(w), pc, 0, 1)
+			break
+		}
 		if name != "diamond" || len(env) != 2 {
 			return "ERR unknown-net"
 		}
